@@ -48,7 +48,7 @@ def find_key_guard(chk, facts, rule='find-key-guard'):
 def run(chk, facts, tier):
     chk.rule('find-key-guard', 'find_key returns {true, key} only under state() == pairing_completed && ediv == 0 && rand == 0, and an empty pair otherwise', floor=3)
     chk.rule('key-writers', 'the key fields are stored only by legacy_pairing_completed / lesc_pairing_completed from their argument, together with the pairing_completed state', floor=3)
-    chk.rule('completion-callers', 'legacy_pairing_completed is called only behind the confirm-value check, lesc_pairing_completed only behind the DHKey (Ea) check', floor=2)
+    chk.rule('completion-callers', 'legacy_pairing_completed is called only behind the confirm-value check, lesc_pairing_completed and store_lesc_key_in_bond_db only behind the DHKey (Ea) check', floor=3)
     chk.rule('bond-db-fallback', 'bonding_db_data_t::find_key returns the connection\'s own key first and otherwise obj.find_key(ediv, rand, remote_address())', floor=1)
     find_key_guard(chk, facts)
     # writers of key fields
@@ -68,6 +68,9 @@ def run(chk, facts, tier):
         for c in fn.body.calls('legacy_pairing_completed'):
             ok = fn.name == 'legacy_handle_pairing_random' and any(op == '==' and not isinstance(r, int) and (strip_casts(l).is_call('mconfirm') or strip_casts(r).is_call('mconfirm')) for l, op, r in guard_atoms(fn, c))
             chk.instance('completion-callers', fn, 'legacy_pairing_completed() in ' + fn.name, ok, '' if ok else 'STK accepted without the confirm check', node=c, key='legacy in ' + fn.name)
+        for c in fn.body.calls('store_lesc_key_in_bond_db'):
+            ok = ea_verified(facts, fn, c)
+            chk.instance('completion-callers', fn, 'store_lesc_key_in_bond_db() in ' + fn.name, ok, '' if ok else 'the LTK of a pairing whose DHKey check was not (yet) verified is written to the bond data base: after a failed pairing find_key offers it', node=c, key='bond store in ' + fn.name)
         for c in fn.body.calls('lesc_pairing_completed'):
             ok = ea_verified(facts, fn, c)
             chk.instance('completion-callers', fn, 'lesc_pairing_completed() in ' + fn.name, ok, '' if ok else 'LTK accepted although the central\'s DHKey check was never compared', node=c, key='lesc in ' + fn.name)
